@@ -282,6 +282,10 @@ def same(x, y, label, goals, seen=None):
     if isinstance(x, SymBytes) and isinstance(y, SymBytes):
         goals.add(label, _skolem_view_eq(BA(x.nbytes * 8, x.bit), BA(y.nbytes * 8, y.bit), label))
         return
+    from . import files as _files
+    if isinstance(x, (_files.BytesIOModel, _files.FileModel)) and type(x) is type(y):
+        goals.add(label, _skolem_view_eq(BA(x.nbytes * 8, x.bit), BA(y.nbytes * 8, y.bit), label))
+        return
     if isinstance(x, SStr) and isinstance(y, SStr):
         if x.kind != y.kind:
             goals.add(label + ':kind', False)
